@@ -153,6 +153,7 @@ apply(int a)
 }
 
 static char path[400];
+static char case_start[700];
 
 static void
 explore(int remaining)
@@ -165,7 +166,7 @@ explore(int remaining)
 	for (a = 0; a < NACT; a ++) {
 		uint64_t h;
 		snprintf(path + pl, sizeof path - pl, " %c.%s", a < 12 ? 'c' : 's', act_names[a % 12]);
-		snprintf(tp_case + strlen(tp_case) - 0, 0, "%s", "");
+		snprintf(tp_case, sizeof tp_case, "%s%s", case_start, path);
 		if (!apply(a)) { path[pl] = 0; continue; }
 		n_trans ++;
 		if (tp_ep_closed(&W.c) || tp_ep_closed(&W.s)) n_closed_trans ++;
@@ -189,11 +190,8 @@ explore_from_here(int depth, const char *start_name, long start_idx)
 	snprintf(case_base, sizeof case_base, "%s", tp_case);
 	path[0] = 0;
 	/* the case string carries the start state and (through `path`) the action sequence */
-	{
-		static char cs[1024];
-		snprintf(cs, sizeof cs, "%s start=%s#%ld path=", case_base, start_name, start_idx);
-		snprintf(tp_case, sizeof tp_case, "%s", cs);
-	}
+	snprintf(case_start, sizeof case_start, "%s start=%s#%ld path=", case_base, start_name, start_idx);
+	snprintf(tp_case, sizeof tp_case, "%s", case_start);
 	vf_stat("start_states", 1);
 	visit(world_hash(), depth);
 	explore(depth);
